@@ -10,17 +10,21 @@ mod verif_xml_escape {
     use super::*;
     use crate::verif_support::{assume, reach};
 
-    /// fixed-size sink (6 input octets * 6 octets for the longest entity = 36)
-    pub struct Sink { pub buf: [u8; 40], pub len: usize }
+    /// fixed-size sink (6 input octets * 6 octets for the longest entity = 36); it never fails:
+    /// running out of room is recorded in `overflow` (asserted false by the harness)
+    pub struct Sink { pub buf: [u8; 40], pub len: usize, pub overflow: bool }
     impl io::Write for Sink {
         fn write(&mut self, d: &[u8]) -> io::Result<usize> {
             if d.len() > self.buf.len() - self.len {
-                return Err(io::Error::from(io::ErrorKind::WriteZero))
+                self.overflow = true;
+            } else {
+                self.buf[self.len..self.len + d.len()].copy_from_slice(d);
+                self.len += d.len();
             }
-            self.buf[self.len..self.len + d.len()].copy_from_slice(d);
-            self.len += d.len();
             Ok(d.len())
         }
+        /// the sink takes everything at once (std's default write_all loop costs CBMC an unwinding per call)
+        fn write_all(&mut self, d: &[u8]) -> io::Result<()> { self.write(d).map(|_| ()) }
         fn flush(&mut self) -> io::Result<()> { Ok(()) }
     }
 
@@ -56,9 +60,10 @@ mod verif_xml_escape {
     verif_harness!{ #[kani::unwind(9)] xml_escape_kb_n6; |attr: bool, b: [u8; 6], len: usize| {
         assume(len <= 6);
         let mode = if attr { TextEscape::Attr } else { TextEscape::Pcdata };
-        let mut sink = Sink { buf: [0u8; 40], len: 0 };
+        let mut sink = Sink { buf: [0u8; 40], len: 0, overflow: false };
         let r = mode.write_escaped(&b[..len], &mut sink);
-        assert!(r.is_ok(), "writing to a sink with room never fails");
+        assert!(r.is_ok(), "writing to a sink that never fails succeeds");
+        assert!(!sink.overflow, "the output fits into 40 octets");
         let n = sink.len;
         assert!(n <= 36, "at most 6 octets per input octet");
         // un-escape the output left to right (one decoded character per step; a `&` that does not
@@ -82,13 +87,14 @@ mod verif_xml_escape {
         }
         assert!(p == n, "nothing after the last input octet");
     }}
-    //@harness xml_escape_kb_n3 Kb fn=TextEscape::write_escaped bound="texts of at most 3 octets, every octet value, both modes"
+    //@harness xml_escape_kb_n3 Kb fn=TextEscape::write_escaped timeout=300 bound="texts of at most 3 octets, every octet value, both modes"
     verif_harness!{ #[kani::unwind(9)] xml_escape_kb_n3; |attr: bool, b: [u8; 6], len: usize| {
         assume(len <= 3);
         let mode = if attr { TextEscape::Attr } else { TextEscape::Pcdata };
-        let mut sink = Sink { buf: [0u8; 40], len: 0 };
+        let mut sink = Sink { buf: [0u8; 40], len: 0, overflow: false };
         let r = mode.write_escaped(&b[..len], &mut sink);
-        assert!(r.is_ok(), "writing to a sink with room never fails");
+        assert!(r.is_ok(), "writing to a sink that never fails succeeds");
+        assert!(!sink.overflow, "the output fits into 40 octets");
         let n = sink.len;
         assert!(n <= 36, "at most 6 octets per input octet");
         // un-escape the output left to right (one decoded character per step; a `&` that does not
